@@ -113,7 +113,7 @@ mod properties {
     }
 
     pub fn read(mut bytes: &mut Bytes) -> Result<Option<DisconnectProperties>, Error> {
-        let (properties_len_len, properties_len) = length(bytes.iter())?;
+        let (properties_len_len, properties_len) = length_in_frame(bytes.iter())?;
 
         bytes.advance(properties_len_len);
 
